@@ -180,3 +180,10 @@ Theorem csv_default_refuted_both : exists xs,
   csv_read_bs (csv_out src_csv_format xs) <> Some (plain_rows (csv_rows src_csv_format xs)).
 Proof. exists [wit_xact [97; 34; 98; 92; 99]]. split; vm_compute; discriminate. Qed.
 Print Assumptions csv_default_refuted_both.
+
+(* the repair proposed for F10 (fn_quoted writes a backslash as two backslashes, like emacs.cc
+   escape_string): then the backslash reader recovers every row, whatever the fields hold *)
+Theorem csv_patched_quoting_roundtrip_bs : forall rows,
+  Forall (fun row => row <> []) rows -> csv_read_bs (csv_text_patched rows) = Some rows.
+Proof. exact csv_patched_read_lemma. Qed.
+Print Assumptions csv_patched_quoting_roundtrip_bs.
